@@ -1,4 +1,4 @@
-from pedal.core.report import MAIN_REPORT
+from pedal.core.report import MAIN_REPORT, Report
 
 
 def make_resolver(func, report=None):
@@ -16,7 +16,11 @@ def make_resolver(func, report=None):
         report = MAIN_REPORT
 
     def resolver_wrapper(*args, **kwargs):
-        report.execute_hooks('pedal.resolvers', 'resolve')
+        # The hooks that have to run are those of the report that is being resolved
+        resolved = kwargs.get('report')
+        if resolved is None:
+            resolved = next((arg for arg in args if isinstance(arg, Report)), report)
+        resolved.execute_hooks('pedal.resolvers', 'resolve')
         return func(*args, **kwargs)
 
     return resolver_wrapper
